@@ -11,6 +11,9 @@ CONSTANTS
   Dev_IdZeroAfterMainRemoved = FALSE
   Dev_TerminateKeepsObjects = FALSE
   Dev_FailedAddLeavesEntry = FALSE
+  ClientSide = FALSE
+  Dev_ClientRemoveKeepsEntry = FALSE
+  Dev_ClientLateCallDropped = FALSE
 VIEW View
 CONSTRAINT Bounded
 INVARIANTS UniqueLiveIds TerminateHookExactlyOnce SubscribersTold NoCrash
